@@ -150,22 +150,22 @@ func c06Valid() []string {
 	// zero-argument / odd-arity calls of every function
 	fns := []string{"lower", "upper", "int", "float", "str", "is_int", "is_float", "substr", "json", "split", "list", "float_list", "int_list", "flist", "ilist", "len", "join", "strlen", "cosine_distance", "l2_distance",
 		"count", "sum", "avg", "min", "max", "quantile", "json_arrayagg", "group_concat"}
-	vals := []string{"key", "value", "'x'", "''", "1", "0", "1.5", "true", "list(1, 2)", "list(1.5)", "split(value, ',')", "json(value)", "json(value)['a']", "json(value)['l']", "json(value)['l'][0]", "int(value)", "float(value)", "key = 'a'", "upper(key)"}
+	vals := []string{"key", "value", "'x'", "''", "1", "0", "1.5", "true", "list(1, 2)", "list(1.5)", "split(value, ',')", "json(value)", "json(value)['a']", "json(value)['l']", "json(value)['l'][0]", "int(value)", "float(value)", "key = 'a'", "upper(key)", "nan", "inf", "0 - inf", "1e400", "0x1p-2"}
 	for _, f := range fns {
 		add("select "+f+"() where true", "select key where "+f+"() = 1", "select key, "+f+"(key, value, 1, 'x') where true", "select * where "+f+"()", "select "+f+"() as x, count(1) where true group by x")
 		for _, v := range vals {
 			add("select key, " + f + "(" + v + ") as x where true")
 			add("select " + f + "(" + v + ") as x, count(1) where true")
 			add("select key where " + f + "(" + v + ") = " + f + "(" + v + ")")
-			for _, v2 := range []string{"key", "1", "','", "list(1, 2, 3)", "json(value)['l']", "0.5", "0 - 1", "0.0 - 0.5", "2", "1.0", "0", "99999999999"} {
+			for _, v2 := range []string{"key", "1", "','", "list(1, 2, 3)", "json(value)['l']", "0.5", "0 - 1", "0.0 - 0.5", "2", "1.0", "0", "99999999999", "nan", "inf", "0 - inf", "1e400", "1.0000001", "float(value)", "int(value)"} {
 				add("select key, " + f + "(" + v + ", " + v2 + ") as x where true order by x")
 				add("select " + f + "(" + v + ", " + v2 + ") as x where true")
 			}
 		}
 	}
 	// out-of-range substr / index arguments
-	for _, a := range []string{"0 - 1", "0", "1", "2", "3", "5", "100", "1.5"} {
-		for _, b := range []string{"0 - 1", "0", "1", "2", "3", "5", "100"} {
+	for _, a := range []string{"0 - 1", "0", "1", "2", "3", "5", "100", "1.5", "0 - 5", "0 - 3", "int(value)", "strlen(key) - 9", "0 - 9223372036854775807", "9223372036854775807", "nan", "inf"} {
+		for _, b := range []string{"0 - 1", "0", "1", "2", "3", "5", "100", "0 - 5", "0 - 3", "int(value) + 2", "strlen(key) - 7", "9223372036854775807", "0 - 9223372036854775807", "nan", "inf"} {
 			add("select key, substr(key, "+a+", "+b+") where true", "select * where substr(value, "+a+", "+b+") = 'a'")
 		}
 	}
